@@ -13,24 +13,14 @@ try:
     if r.returncode != 0:
         print(sid, chk, "PATCH-DOES-NOT-APPLY", r.stderr[:200])
         sys.exit(2)
-    env = dict(os.environ, VERIF_REPO=wt, VERIF_EVIDENCE_DIR=f"{V}/.work/mut-evidence")
-    import fcntl
-    lock = open(f"{V}/.work/gen.lock", "w")
-    if chk in ("C14", "C18", "C01"):          # these checks regenerate files under coq/gen from the tree under test: one at a time
-        fcntl.flock(lock, fcntl.LOCK_EX)
-    try:
-        p = subprocess.run([f"{V}/check", chk, tier], capture_output=True, text=True, cwd=V, timeout=3000, env=env)
-    finally:
-        if chk == "C14":
-            subprocess.run(["/venv/bin/python", f"{V}/harness/py2coq_valid.py", "/repo/tinyflux/point.py", f"{V}/coq/gen/ValidGen.v"], capture_output=True)
-        if chk == "C01":
-            subprocess.run(["/venv/bin/python", f"{V}/harness/py2coq_guard.py", "/repo/tinyflux/database.py", f"{V}/coq/gen/GuardGen.v"], capture_output=True)
-        if chk == "C18":
-            subprocess.run(["/venv/bin/python", f"{V}/harness/py2coq.py", "/repo/tinyflux/utils.py", f"{V}/coq/gen/UtilsGen.v"], capture_output=True)
-        fcntl.flock(lock, fcntl.LOCK_UN)
+    coqdir = f"{wt}-coq"                     # a private copy of the Coq development: generated files are rewritten from the tree under test
+    shutil.copytree(f"{V}/coq", coqdir, symlinks=True)
+    env = dict(os.environ, VERIF_REPO=wt, VERIF_EVIDENCE_DIR=f"{V}/.work/mut-evidence", VERIF_COQ_DIR=coqdir)
+    p = subprocess.run([f"{V}/check", chk, tier], capture_output=True, text=True, cwd=V, timeout=3000, env=env)
 finally:
     subprocess.run(["git", "-C", "/repo", "worktree", "remove", "--force", wt], capture_output=True)
     shutil.rmtree(wt, ignore_errors=True)
+    shutil.rmtree(f"{wt}-coq", ignore_errors=True)
 out = p.stdout + p.stderr
 viol = [l for l in out.splitlines() if l.startswith("VIOLATION")]
 kind = None
